@@ -112,6 +112,8 @@ async fn create_topic(
                 stream_id
             )
         })?;
+    // Journal the ID the server has assigned, so that replay cannot pick a different one.
+    command.topic_id = Some(topic.topic_id);
     command.message_expiry = topic.message_expiry;
     command.max_topic_size = topic.max_topic_size;
     let response = Json(mapper::map_topic(topic).await);
